@@ -260,7 +260,40 @@ func init() {
 						iterValid := func(st *schema.St) ([]string, error) {
 							return idsOf(st.Store.IterateValidIds(tx, ast.BoolNodeTrue)), nil
 						}
+						// Seek to every id of the parent store (and in front of / behind all of them), then the rest of the
+						// enumeration: the store's ids at or behind the target, nothing else
+						seekAll := func(valid bool) func(st *schema.St) ([]string, error) {
+							return func(st *schema.St) ([]string, error) {
+								pop := all
+								if st.Def.Parent != "" && (!st.Def.Extended || valid) {
+									pop = mgrs
+									if st == e.Sc.St(kmodel.Ctrs) {
+										pop = ctrs
+									}
+								}
+								for _, target := range append(append([]string{""}, all...), "\xff") {
+									cur := st.Store.IterateIds(tx, ast.BoolNodeTrue)
+									if valid {
+										cur = st.Store.IterateValidIds(tx, ast.BoolNodeTrue)
+									}
+									cur.Seek([]byte(target))
+									got := idsOf(cur)
+									var want []string
+									for _, id := range pop {
+										if id >= target {
+											want = append(want, id)
+										}
+									}
+									if !sameList(got, want) {
+										return got, fmt.Errorf("after Seek(%q): %q, the store's ids at or behind the target are %q", target, got, want)
+									}
+								}
+								return pop, nil
+							}
+						}
 						for _, qq := range []q{
+							{kmodel.Emps, "IterateIds + Seek", all, seekAll(false)}, {kmodel.Mgrs, "IterateIds + Seek", mgrs, seekAll(false)}, {kmodel.Ctrs, "IterateIds + Seek", all, seekAll(false)},
+							{kmodel.Emps, "IterateValidIds + Seek", all, seekAll(true)}, {kmodel.Mgrs, "IterateValidIds + Seek", mgrs, seekAll(true)}, {kmodel.Ctrs, "IterateValidIds + Seek", ctrs, seekAll(true)},
 							{kmodel.Emps, "QueryIds(true)", all, query}, {kmodel.Emps, "QueryIds()", all, queryEmpty}, {kmodel.Emps, "IterateIds", all, iter}, {kmodel.Emps, "IterateValidIds", all, iterValid},
 							{kmodel.Mgrs, "QueryIds(true)", mgrs, query}, {kmodel.Mgrs, "QueryIds()", mgrs, queryEmpty}, {kmodel.Mgrs, "IterateIds", mgrs, iter}, {kmodel.Mgrs, "IterateValidIds", mgrs, iterValid},
 							{kmodel.Emps, "QueryIds(sort by id desc)", all, queryDesc}, {kmodel.Mgrs, "QueryIds(sort by id desc)", mgrs, queryDesc}, {kmodel.Ctrs, "QueryIds(sort by id desc)", all, queryDesc},
